@@ -146,7 +146,18 @@ func checkBeginReward(c *core.Ctx, fn *ssa.Function) {
 	c.Check(extractOf(setNew.Arg(0), upd.(ssa.Value), 0) && extractOf(setNew.Arg(1), upd.(ssa.Value), 1), "C28.cap", "BeginBlock/new-values", setNew.Pos(), "SetReward receives exactly the two results of the re-pricing function", "SetReward(new) is not fed with the re-pricing results")
 	// the re-pricing function is one of AppDB.UpdatePrice*
 	okFn := true
+	var fnOrigins []ssa.Value
 	for _, o := range core.Origins(upd.(*ssa.Call).Call.Value) {
+		// chosen by a helper of the package (`priceUpdater(height)`): what that helper returns
+		if call, ok := o.(*ssa.Call); ok {
+			if h := call.Call.StaticCallee(); h != nil && h.Blocks != nil && core.PkgOf(h) == core.PkgOf(fn) {
+				fnOrigins = append(fnOrigins, core.ResultOrigins(h, 0)...)
+				continue
+			}
+		}
+		fnOrigins = append(fnOrigins, o)
+	}
+	for _, o := range fnOrigins {
 		name := ""
 		switch x := o.(type) {
 		case *ssa.MakeClosure:
